@@ -74,7 +74,7 @@ NSLOTS = 2
 LOCAL_REF_FORMS = ('DW_FORM_ref1', 'DW_FORM_ref2', 'DW_FORM_ref4', 'DW_FORM_ref8', 'DW_FORM_ref', 'DW_FORM_ref_udata')
 OTHER_REF_FORMS = ('DW_FORM_ref_sig8', 'DW_FORM_ref_sup4', 'DW_FORM_ref_sup8', 'DW_FORM_GNU_ref_alt')
 DWARF_OPS = {'CUAt', 'CUContaining', 'TopDIE', 'DIEAt', 'DIEGlobal', 'Parent', 'FollowRef', 'LineProg', 'LineEntries',
-             'CFI', 'CFIDecoded', 'TUBySig', 'NewIterTUs', 'RefetchDwarf', 'CUAtFailing', 'DIEAtOutside', 'NewIterCUs', 'NewIterDIEs', 'NewIterChildren', 'NewIterSiblings'}
+             'CFI', 'CFIDecoded', 'TUBySig', 'NewIterTUs', 'RefetchDwarf', 'CUAtFailing', 'DIEAtOutside', 'LineEntriesFailing', 'NewIterCUs', 'NewIterDIEs', 'NewIterChildren', 'NewIterSiblings'}
 
 
 # ------------------------------------------------------------------ serialisation of observed values
@@ -287,7 +287,7 @@ class Opened:
             if lp is None:
                 return 'none'
             return ['vals', self.ids.of(ser_lphdr(lp.header)), len(lp.header['file_entry'])]
-        if k == 'LineEntries':
+        if k in ('LineEntries', 'LineEntriesFailing'):
             lp = dw.line_program_for_CU(dw.get_CU_at(op[1]))
             if lp is None:
                 return 'none'
@@ -855,9 +855,15 @@ def tabulate(meta, fresh_each=True, die_budget=4000):
                     eff = _read_effects(d2, skip=(3,))
                     rawh = [lp.program_end_offset, len(lp.header['file_entry']), ids.of(ser_lphdr(lp.header)), eff]
                     start = lp.program_start_offset
-                    es = lp.get_entries()
-                    body = [ids.of(ser_lpentries(es)),
-                            sum(1 for x in es if x.is_extended and x.command == 3)]
+                    try:
+                        es = lp.get_entries()
+                        body = [ids.of(ser_lpentries(es)),
+                                sum(1 for x in es if x.is_extended and x.command == 3)]
+                    except Exception as ex:
+                        # an ill-formed program: decoding fails on a fresh object; the failing query (and its retry) is an
+                        # operation of its own (LineEntriesFailing), LineEntries is not generated for this unit
+                        body = [ids.of(('lpfail', type(ex).__name__)), 0]
+                        meta.setdefault('lp_fail', {})[off] = [type(ex).__name__, d2.debug_line_sec.stream.tell()]
                     rec = [lo, rawh, start, body, d2.debug_line_sec.stream.tell()]
                     if lo in lines and lines[lo] != rec:
                         notes.append('line program %d decodes differently for two units sharing it' % lo)
@@ -1035,7 +1041,9 @@ def alphabet(meta, machine):
         ops += [['CUAtFailing'] + f for f in pick]
         if not pick:
             ops = []
-        else:
+        for uo, (en, cur) in sorted(meta.get('lp_fail', {}).items())[:1]:
+            ops += [['LineEntriesFailing', uo, en, cur], ['LineProg', uo]]
+        if pick:
             # entry lookups inside a unit header and at the end of the unit: DWARFError, then queries on that unit
             ul = meta['units'][-1]
             ops += [['DIEAtOutside', ul['off'], ul['off'] + 6], ['DIEAtOutside', us[0], us[0] + meta['units'][0]['size']],
@@ -1320,7 +1328,11 @@ def random_op(rng, meta):
     if meta['dyn_idx'] is not None and meta['num_tags']:
         choices += [['ENumTags'], ['EGetTag', rng.randrange(meta['num_tags'] + 3)], ['NewIterTags', rng.randrange(NSLOTS)]]
     choices += [['Next', rng.randrange(NSLOTS)]] * max(3, len(choices) // 3)
-    return rng.choice(choices)
+    op = rng.choice(choices)
+    fail = meta.get('lp_fail', {})
+    if op[0] == 'LineEntries' and op[1] in fail:
+        op = ['LineEntriesFailing', op[1]] + fail[op[1]]
+    return op
 
 
 def random_disturb(rng, meta):
